@@ -358,6 +358,34 @@ theorem no_deadlock_flag {cfg : Cfg} {n : Nat} {s : State} (hrep : cfg.repaired 
         right
         exact ⟨i, hi, by simp [hen]⟩
 
+/-- **Every API call returns** (repaired `dequeue`, at least one worker, strict relation).  Let the main thread be
+inside `submit`, `dequeue`, `get_status` or `destroy` in a reachable state `s`.  Then *every* strict execution
+from `s` during which the call does not return (i) is at most `mu s` steps long (`mu`: 6 per queued item + 2 per
+step a worker can still take + the main thread's remaining steps — it strictly decreases with every step of
+any thread), and (ii) can be extended by a further step: so the only way it can end is by the call returning.
+No fairness assumption is needed: while the call has not returned there is simply no infinite schedule. -/
+theorem api_returns {cfg : Cfg} {n : Nat} {s s' : State} {cs : List Choice} (hrep : cfg.repaired = true)
+    (hn : 0 < n) (hr : Reachable cfg n s) (hcall : mainInCall s = true) (hx : StaysInCall cfg s cs s') :
+    cs.length + mu s' ≤ mu s ∧
+    ∃ c s'', (∀ op, c ≠ .main (.call op)) ∧ stepStrict cfg s' c = some s'' := by
+  have key : ∀ {s : State} {cs : List Choice} {s' : State}, StaysInCall cfg s cs s' → Reachable cfg n s →
+      mainInCall s = true → cs.length + mu s' ≤ mu s ∧ Reachable cfg n s' ∧ mainInCall s' = true := by
+    intro s cs s' hx
+    induction hx with
+    | nil s => intro hr hcall; exact ⟨by simp, hr, hcall⟩
+    | @cons s0 s1 s2 c cs' hs hin _ ih =>
+      intro hr hcall
+      have hr1 : Reachable cfg n s1 := by
+        unfold stepStrict at hs
+        split at hs
+        · exact .step c hr hs
+        · simp at hs
+      obtain ⟨h1, h2, h3⟩ := ih hr1 hin
+      have := mu_decreases cfg c hs hcall hin
+      exact ⟨by simp only [length_cons]; omega, h2, h3⟩
+  have key := key hx hr hcall
+  exact ⟨key.1, no_deadlock hrep hn key.2.1 key.2.2⟩
+
 /-! ### failure -/
 
 /-- **Failure recorded.** In every reachable state: a non-zero status is the value some callback that ran
@@ -514,5 +542,18 @@ example :
     let s := run ⟨true, fun _ => 0⟩ (init 2)
       [.main (.call (.submit 3)), .main (.cont false), .worker 1 false, .main (.call .dequeue), .main (.cont false)]
     s.main = .deqWait false ∧ s.nextDeq ∈ tkW s ∧ s.workers = [.start, .working ⟨0, 3⟩] := by decide
+
+/-- `StaysInCall` is inhabited non-trivially: main waits in `dequeue` while worker 1 takes the item and runs the
+callback (two steps inside the call) -/
+example :
+    let cfg : Cfg := ⟨true, fun _ => 0⟩
+    let pre : List Choice := [.main (.call (.submit 3)), .main (.cont false), .main (.call .dequeue), .main (.cont false)]
+    mainInCall (run cfg (init 2) pre) = true ∧
+    StaysInCall cfg (run cfg (init 2) pre) [.worker 1 false, .worker 1 false]
+      (run cfg (init 2) (pre ++ [.worker 1 false, .worker 1 false])) :=
+  ⟨by decide,
+   .cons (s1 := run ⟨true, fun _ => 0⟩ (init 2)
+            [.main (.call (.submit 3)), .main (.cont false), .main (.call .dequeue), .main (.cont false), .worker 1 false])
+     (by decide) (by decide) (.cons (by decide) (by decide) (.nil _))⟩
 
 end Sqfs.C09
